@@ -589,8 +589,24 @@ for _q in ['treatment_group_size_range', '_control_group_size_generator',
       [('afterwards the geo index of geo_assignments is installed',
         installed)], ('C10',)))
 
+spec.contract(
+    CLS + '.__init__',
+    params={'data': TObj('TBRMMData'),
+            'parameters': TObj('TBRMMDesignParameters')},
+    modifies=['self.*', 'data.df'], props=('C01', 'C09', 'C10', 'C15'),
+    requires=[('the data object satisfies its invariant',
+               lambda s: td.data_inv(s.data)),
+              ('the parameter object is an accepted one',
+               lambda s: cl.valid_params(s.parameters))],
+    binds={'self.data': lambda s: s.data,
+           'self.parameters': lambda s: s.parameters},
+    ensures=[('the object invariant every method assumes: data invariant, '
+              'accepted parameters, one required impact per geo in the data',
+              lambda s: mm_inv(s.self))])
+
 LEMMAS = []
 FUNCTIONS = [
+    CLS + '.__init__',
     CLS + '.geos_over_budget', CLS + '.geos_too_large',
     CLS + '.geos_must_include', CLS + '.geos_within_constraints',
     CLS + '.geo_assignments', CLS + '.treatment_group_size_range',
